@@ -76,7 +76,7 @@ def harness_args(tier, seed):
 SPEC = {
     "id": "C09",
     "gens": ["FmtTables", "ParseTables", "SyntaxTables", "LexTables"],
-    "lean_modules": ["RsslVerif.Thm.C09", "RsslVerif.Thm.C10"],
+    "lean_modules": ["RsslVerif.Thm.C09", "RsslVerif.Thm.C10", "RsslVerif.Lemmas.LiteralText"],
     "level_note": "roundtrip_xexpr_partial / roundtrip_stmt_partial / roundtrip_decl_partial: WF / WFS / WFVarDef are decidable "
                   "syntactic carve-outs (notes/C09.md); function definitions, structs and literal text are reached by the "
                   "correspondence run only",
@@ -91,7 +91,9 @@ SPEC = {
         "less_greater_paren_regroups",
         # statements and local variable definitions (Model/FormatStmt + Model/ParseStmt)
         "roundtrip_stmt_partial", "roundtrip_block_partial", "roundtrip_decl_partial", "dangling_else_regroups",
-        "attribute_comma_regroups", "for_init_pointer_reads_as_expr"]] + [
+        "attribute_comma_regroups", "for_init_pointer_reads_as_expr",
+        # text of integer literals through C10's lexer model
+        "literal_roundtrip_int"]] + [
         # "every literal reads back with the same value and type": the reading half is property C10's; its literal
         # theorems and the shape obligations of the lexer's numeric functions are C09 obligations too (a change of
         # calculate_float64_from_parts / literal_*_int breaks them here as well)
